@@ -9,6 +9,14 @@ from vf.core import ROOT, REPO
 ALL = ["C%02d" % i for i in range(1, 30)]
 
 
+def ready_ids():
+    rp = os.path.join(ROOT, "READY")
+    if not os.path.exists(rp):
+        return set()
+    return {l.strip() for l in open(rp) if l.strip()
+            and not l.startswith("#")}
+
+
 def main():
     hooks_commits = []
     hc = os.path.join(ROOT, "HOOK_COMMITS.txt")
@@ -33,7 +41,8 @@ def main():
         },
         "engines": [
             {"name": "vf", "path": "vf/",
-             "serves_properties": sorted(registry.CHECKS),
+             "serves_properties": sorted(
+                 p for p in registry.CHECKS if p in ready_ids()),
              "kind_free_text": "Python runtime-monitoring framework: "
              "generators + monitors on the real PSyclone classes + compiled "
              "execution of generated Fortran (gfortran -fcheck=all)"}],
@@ -43,8 +52,13 @@ def main():
                  "what was observed, 1 violation, 2 inconclusive (monitor not "
                  "reached / watchdog).  Known findings: KNOWN_FINDINGS.json.",
     }
+    ready = set()
+    rp = os.path.join(ROOT, "READY")
+    if os.path.exists(rp):
+        ready = {l.strip() for l in open(rp) if l.strip()
+                 and not l.startswith("#")}
     for pid in ALL:
-        if pid in registry.CHECKS:
+        if pid in registry.CHECKS and pid in ready:
             c = registry.CHECKS[pid]
             man["checks"].append({
                 "property_id": pid,
